@@ -3,6 +3,7 @@
 from __future__ import annotations
 
 import copy
+import os
 import shutil
 
 from . import CHECK_VERSION, core
@@ -93,6 +94,24 @@ def generate(seed_: int, run: int, info: dict) -> dict:
     return {"phases": phases, "fault_mode": fault_mode}
 
 
+def sweep_workload(cfg: str, j: int, writer: str, n: int, partner: int | None) -> dict:
+    """Directed fault placement: one writer, byte-wise chunks, killed at scheduler step ``n``;
+    then a fault-free user asks for the same expression (and a colliding partner)."""
+    quiet = {"kills": 0, "errors": 0, "chunk_modes": [0], "pid_base": 4100, "max_steps": 20000}
+    calls = [{"expr": j, "dir": "shared"}]
+    if partner is not None:
+        calls.append({"expr": partner, "dir": "shared"})
+    return {
+        "phases": [
+            {"cfg": cfg, "actors": [{"kind": writer, "calls": [{"expr": j, "dir": "shared"}]}],
+             "knobs": {"kills": 1, "errors": 0, "chunk_modes": [4], "kill_at_step": n, "pid_base": 4000,
+                       "max_steps": 400000}},
+            {"cfg": cfg, "actors": [{"kind": "user", "calls": calls}], "knobs": quiet},
+        ],
+        "fault_mode": True, "sweep": [cfg, j, writer, n],
+    }
+
+
 def full_phases(workload: dict) -> list[dict]:
     return list(workload["phases"]) + _verification_phases(workload["phases"])
 
@@ -115,9 +134,13 @@ def execute(zy: ZygoteSet, seed_: int, run: int, workload: dict, traces=None, ta
             res = zy.call(phase["cfg"], "run_phase",
                           {"root": str(root), "phase": phase, "trace": trace,
                            "rng_seed": f"{PROP}:{seed_}:{run}:{i}"}, timeout=180)
-            if res.get("step_cap"):
-                raise HarnessError(f"run {run} phase {i}: {res['step_cap']}")
             out_phases.append(res)
+            if res.get("step_cap"):
+                # a call that does not come back within the step budget: no progress (liveness)
+                violations.append({"sig": ("recovery:" if phase.get("verify") else "") + "stuck",
+                                   "detail": f"phase {i} cfg={phase['cfg']}: {res['step_cap']}; "
+                                             f"last seams {res.get('seam_kinds')}"})
+                break
             for r in res["results"]:
                 if r["status"] in ("ok", "injected-oserror"):
                     continue
@@ -212,9 +235,36 @@ class Context:
         self.seed = seed_
         self.options = options
         self.info = zy.ensure("H0")
+        self.sweep: list[tuple] = []
+        if options.get("tier") == "thorough" and not options.get("no_sweep"):
+            self.sweep = self._sweep_items()
+
+    def _sweep_items(self) -> list[tuple]:
+        """(cfg, expr, writer kind, kill step) for every scheduler step of every single-writer call;
+        files with more than ~2500 steps are swept completely for the first 400 steps and every 7th after."""
+        families: dict[str, list[int]] = {}
+        for i, fam in enumerate(self.info["families"]):
+            if fam:
+                families.setdefault(fam, []).append(i)
+        items = []
+        hu = core.hash_configs(self.seed, 0)[2]
+        for j, fam in enumerate(self.info["families"]):
+            partner = next((k for k in families.get(fam, []) if k != j), None)
+            for writer, cfg in (("user", hu if j % 2 else "H0"), ("legacy", "H0" if j % 2 else hu)):
+                dry = execute(self.zy, self.seed, 0, sweep_workload(cfg, j, writer, -1, partner), tag=f"-dry{os.getpid()}")
+                steps = dry["phases"][0]["steps"]
+                for n in range(steps):
+                    if steps <= 1500 or n < 300 or n % 5 == 0 or n > steps - 40:
+                        items.append((cfg, j, writer, n, partner))
+        items.sort(key=lambda it: (it[3], it[1], it[2]))  # low offsets of every file first
+        return items
 
     def run(self, r: int) -> dict:
-        workload = generate(self.seed, r, self.info)
+        if r < len(self.sweep):
+            cfg, j, writer, n, partner = self.sweep[r]
+            workload = sweep_workload(cfg, j, writer, n, partner)
+        else:
+            workload = generate(self.seed, r - len(self.sweep), self.info)
         out = execute(self.zy, self.seed, r, workload)
         record = {"run": r, "violations": [], "stats": self._stats(workload, out),
                   "workload": workload if r < 3 else None}
@@ -258,11 +308,14 @@ class Context:
             "armed": {"kill": sum(p["knobs"]["kills"] for p in phases),
                       "error": sum(p["knobs"]["errors"] for p in phases)},
             "signature": core.sha([p["events_digest"] for p in out["phases"]])[:20],
+            "sweep": workload.get("sweep"),
+            "killed_at": [p.get("killed_at") for p in out["phases"] if p.get("killed_at")],
             "listing": [p["listing_digest"][:12] for p in out["phases"]],
         }
 
     def finish(self) -> dict:
-        return {"pool": self.info.get("pool"), "colliding_keys_H0": self.info.get("colliding_keys")}
+        return {"pool": self.info.get("pool"), "colliding_keys_H0": self.info.get("colliding_keys"),
+                "sweep_items": len(self.sweep)}
 
 
 def coverage(records: list[dict], extras: list[dict], options: dict) -> dict:
@@ -292,7 +345,22 @@ def coverage(records: list[dict], extras: list[dict], options: dict) -> dict:
         if rec.get("workload") is not None and len(samples) < 3:
             samples.append({"run": rec["run"], "workload": rec["workload"], "stats": rec["stats"]})
     pool = next((e.get("pool") for e in extras if e.get("pool")), [])
+    sweep_total = max((e.get("sweep_items", 0) for e in extras), default=0)
+    sweep_done = [r for r in records if r["stats"].get("sweep")]
+    sweep_kill_seams: dict[str, int] = {}
+    for r in sweep_done:
+        for k in r["stats"]["killed_at"]:
+            sweep_kill_seams[k["seam"]] = sweep_kill_seams.get(k["seam"], 0) + 1
     return {
+        "directed_crash_sweep": {
+            "description": "thorough tier only: every scheduler step (each single byte of the pickle, and every open/stat/"
+                           "mkdir/close/replace seam) of a single-writer call is used once as the kill point, for the current "
+                           "writer and for the pinned-protocol legacy writer, followed by a fault-free reader and verification",
+            "planned_kill_points": sweep_total, "executed_kill_points": len(sweep_done),
+            "complete": bool(sweep_total) and len(sweep_done) == sweep_total,
+            "kills_by_seam": sweep_kill_seams,
+            "files_swept": len({(r["stats"]["sweep"][1], r["stats"]["sweep"][2]) for r in sweep_done}),
+        },
         "evaluations": len(records),
         "distinct_nontrivial": len(nontrivial),
         "distinct_signatures": len(signatures),
